@@ -17,6 +17,7 @@ from vmon import refmodel as rm
 from vmon.shadow import ShadowTrajectory
 from vmon.props import C01
 
+ANCHORS = ['evo/main_traj.py', 'evo/tools/file_interface.py', 'evo/core/trajectory.py', 'evo/core/lie_algebra.py']
 LEVEL = "exploration"
 SHARDS = {"quick": 8, "thorough": 16}
 RULE = ("1..3 trajectory files (+ optional reference) in TUM/KITTI/EuRoC form x random combinations "
